@@ -35,8 +35,13 @@ LedgerDrift(b, s0, e) ==
         IN \/ ~RowAgrees(b, MAdd(MNorm(s0.F[r.s]), {<< r.s, "LAG_F" >>}, 1), r.F)
            \/ ~RowAgrees(b, MNorm(s0.INC[r.s]), r.INC)
 
+\* (e.queried: cross rates the user asked the exchange-rate sector for while building the model - asking creates the
+\* variable, whether or not a flow uses that direction of the pair)
 VarsDrift(b, s0, e) ==
-    \E i \in 1..Len(e.vars) : Range(e.vars[i].names) # s0.vt[e.vars[i].s]
+    \E i \in 1..Len(e.vars) :
+        LET obs == Range(e.vars[i].names)
+            exp == s0.vt[e.vars[i].s]
+        IN ~(exp \subseteq obs /\ (obs \ exp) \subseteq Range(e.queried))
 
 \* ledgers observed during main(): rows of [c, int, f |-> << <<sector, local>>, ... >>]; LAG_F is in the real F equation
 \* from the constructor on, the spec adds it when the ledgers are closed
